@@ -190,3 +190,32 @@ func VerifC06Wrapped(kind, inner, l, lo, hi int) {
 	}
 	verifC06Payload(code, p, secs...)
 }
+
+// VerifC06AnyCode: a message holding ONE option whose 16-bit code is symbolic (every assigned,
+// unassigned and seldom-used code) with n symbolic payload bytes. If the decoder accepts it, the
+// re-encoded datagram still carries that option code and the same number of options, decodes
+// again. (A code that is decoded through another option's type would come back under that type's
+// code.)
+func VerifC06AnyCode(n int) {
+	code := verifU16("code")
+	b := []byte{verifU8("type"), verifU8("xid"), verifU8("xid"), verifU8("xid"), byte(code >> 8), byte(code), byte(n >> 8), byte(n)}
+	b = append(b, verifBytes("p", n)...)
+	verifAssume(b[0] != 12)
+	verifAssume(b[0] != 13)
+	d1, err := FromBytes(b)
+	if err != nil {
+		verifReach("rejected")
+		verifReach("end")
+		return
+	}
+	b1 := d1.ToBytes()
+	verifAssert(len(b1) >= 8, "reencoded-carries-the-option")
+	if len(b1) >= 8 {
+		verifAssert(b1[4] == b[4] && b1[5] == b[5], "reencoded-option-keeps-its-code")
+	}
+	_, err2 := FromBytes(b1)
+	verifAssert(err2 == nil, "reencoded-decodes")
+	// (the byte-for-byte fixpoint of each option type's payload is the per-type harnesses' subject)
+	verifReach("accepted")
+	verifReach("end")
+}
